@@ -718,7 +718,7 @@ Qed.
 (** * Every operation preserves the invariant; so does every history *)
 Theorem step_inv s o s' : Inv s -> step cfg s o = Ok s' -> Inv s'.
 Proof.
-  intros HI H. unfold step, step_gen in H. destruct o as [c u tok amt dst rcv cd cb ftok fee|src dst sq|src dst sq|c u dst sq amt].
+  intros HI H. unfold step, step_gen in H. destruct o as [c u tok amt dst rcv cd cb ftok fee|src dst sq|src dst sq|c u dst sq amt|k src dst sq]; [| | | |discriminate].
   - destruct (transfer_chain cfg c (chains s c) (User u) tok amt dst rcv cd (if cb then CbBroken else CbNone) ftok fee) as [[cs p]|] eqn:E; [|discriminate].
     inv H. eapply transfer_inv; eauto.
   - destruct (lookup src dst sq (packets s)) as [p|] eqn:El; [|discriminate].
